@@ -102,7 +102,7 @@ class TypePrinter:
                 if not isinstance(param, ConstParam) or not param.from_comptime_arg
             ]
             quantified = ", ".join(params)
-            del self.bound_names[: -len(ty.params)]
+            del self.bound_names[-len(ty.params) :]
             return _wrap(f"forall {quantified}. {inputs} -> {output}", inside_row)
         return _wrap(f"{inputs} -> {output}", inside_row)
 
